@@ -8,11 +8,16 @@ def subst_expr(e, env):
         return e
     k = e[0]
     if k == 'var':
+        if e[1] in ARRAYS:
+            v = env.get(e[1])
+            if v is not None and v[0] == 'call' and len(v[2]) == 1 and not v[3] and _innermost_var(v[2][0]) == e[1]:
+                return v
+            return e
         return env.get(e[1], e)
     if k in ('num', 'str', 'none', 'bool', 'other'):
         return e
     if k == 'call':
-        return ('call', subst_expr(e[1], env) if e[1][0] != 'var' else e[1], tuple(subst_expr(a, env) for a in e[2]),
+        return ('call', subst_expr(e[1], env), tuple(subst_expr(a, env) for a in e[2]),
                 tuple((kw, subst_expr(v, env)) for kw, v in e[3]))
     if k in ('tuple', 'list', 'set', 'min', 'max'):
         return (k, tuple(subst_expr(a, env) for a in e[1]))
@@ -23,10 +28,34 @@ def subst_expr(e, env):
     if k == 'idx':
         # never replace the array being subscripted by its allocation expression
         base = e[1] if e[1][0] == 'var' else subst_expr(e[1], env)
+        if e[1][0] == 'var':
+            v = env.get(e[1][1])
+            # `A = f(A)` (whole-array conversion such as result_fn(dtw)) stays visible on later element reads
+            if v is not None and v[0] == 'call' and len(v[2]) == 1 and _innermost_var(v[2][0]) == e[1][1] and not v[3]:
+                base = v
         return ('idx', base, subst_expr(e[2], env))
     if k in ('lambda', 'comp'):
         return e
     return (k,) + tuple(subst_expr(a, env) if isinstance(a, tuple) else a for a in e[1:])
+
+
+ARRAYS = set()      # names of array-valued locals of the function under analysis: never replaced by their allocation
+
+
+def subscripted_names(stmts):
+    out = set()
+    for s in walk_stmts(stmts):
+        for e in stmt_exprs(s):
+            for x in walk_expr(e):
+                if x[0] == 'idx' and x[1][0] == 'var':
+                    out.add(x[1][1])
+    return out
+
+
+def _innermost_var(e):
+    while e[0] == 'call' and len(e[2]) == 1:
+        e = e[2][0]
+    return e[1] if e[0] == 'var' else None
 
 
 def assigned_vars(stmts):
@@ -130,7 +159,12 @@ class Exec:
             elif k == 'expr':
                 self.events.append(('expr', tuple(self.path), subst_expr(s.value, env), s))
             elif k == 'if':
-                c = norm_minmax(subst_expr(s.cond, env))
+                c = fold_bool(norm_minmax(subst_expr(s.cond, env)))
+                if c[0] == 'bool':
+                    r = self.run(s.then if c[1] else s.els, env)
+                    if r is None:
+                        return None
+                    continue
                 e1 = env.copy()
                 e2 = env.copy()
                 self.path.append(c)
@@ -211,13 +245,68 @@ def reads_of(e, arr):
     return [x for x in walk_expr(e) if x[0] == 'idx' and x[1] == ('var', arr)]
 
 
+NONNULL = set()     # atoms known not to be None (set by the caller for a specialised run)
+
+
+def fold_bool(c):
+    """Constant-fold a condition where possible -> ('bool', b) or the condition."""
+    if c[0] == 'un' and c[1] == 'not':
+        x = fold_bool(c[2])
+        if x[0] == 'bool':
+            return ('bool', not x[1])
+        if x[0] == 'num':
+            return ('bool', not x[1])
+        if x[0] == 'none':
+            return ('bool', True)
+        return ('un', 'not', x)
+    if c[0] == 'bin' and c[1] in ('is', 'isnot') and c[3] == ('none',):
+        l = c[2]
+        if l == ('none',):
+            return ('bool', c[1] == 'is')
+        if l[0] in ('num', 'str', 'bool', 'tuple', 'list') or (l[0] == 'var' and l[1] in NONNULL):
+            return ('bool', c[1] != 'is')
+    if c[0] == 'bin' and c[1] in ('and', 'or'):
+        a, b = fold_bool(c[2]), fold_bool(c[3])
+        ta = _truth(a)
+        tb = _truth(b)
+        if c[1] == 'and':
+            if ta is False or tb is False:
+                return ('bool', False)
+            if ta is True:
+                return b
+            if tb is True:
+                return a
+        else:
+            if ta is True or tb is True:
+                return ('bool', True)
+            if ta is False:
+                return b
+            if tb is False:
+                return a
+        return ('bin', c[1], a, b)
+    if c[0] == 'num':
+        return ('bool', bool(c[1]))
+    if c[0] == 'none':
+        return ('bool', False)
+    return c
+
+
+def _truth(c):
+    if c[0] == 'bool':
+        return c[1]
+    return None
+
+
 def norm_minmax(e):
-    """Rewrite running-min / running-max conditionals on floats: cond(a < b, a, b) -> min(a, b) etc. (structural)."""
+    """Rewrite running-min / running-max conditionals on floats: cond(a < b, a, b) -> min(a, b) etc. (structural);
+    conditionals with a constant condition are folded."""
     if not isinstance(e, tuple):
         return e
     k = e[0]
     if k == 'cond':
-        c, a, b = norm_minmax(e[1]), norm_minmax(e[2]), norm_minmax(e[3])
+        c, a, b = fold_bool(norm_minmax(e[1])), norm_minmax(e[2]), norm_minmax(e[3])
+        if c[0] == 'bool':
+            return a if c[1] else b
         if c[0] == 'bin' and c[1] in ('<', '<=', '>', '>='):
             x, y = c[2], c[3]
             if c[1] in ('<', '<='):
